@@ -135,10 +135,10 @@ func VerifC03_TasksToAllocate() {
 
 // VerifC03_TasksToEvict: the eviction unit of a job keeps every pod set at or above its minimum
 // (elastic shrink) or contains every active-allocated task of the job.
-// BOUND: as VerifC03_TasksToAllocate, statuses Pending/Running/Releasing
+// BOUND: K = 1..2 pod sets x n = 3 tasks (quick) / 4 tasks (thorough); minAvailable symbolic in [1, n]; statuses Pending/Running/Releasing
 func VerifC03_TasksToEvict() {
 	K := vr.Choose("sets", 2) + 1
-	n := vr.Bound("tasksPerSet", 2, 3)
+	n := vr.Bound("evictTasksPerSet", 3, 4)
 	j, sets := c03Job(K, n, c03Statuses[:3])
 	victims, partial := podgroup_info.GetTasksToEvict(j, c03SetOrder, c03TaskOrder)
 	vr.Observe("victims", len(victims))
